@@ -134,7 +134,26 @@ def gen_plan(seed: int) -> Dict:
     pool.append(first)
     for _ in range(npool - 1):
         base = rs.choice(pool)
-        pool.append(_gen_contract(rs, names, dom, avoid_out=set(base["out"]), prefer_in=set(base["in"])))
+        c = _gen_contract(rs, names, dom, avoid_out=set(base["out"]), prefer_in=set(base["in"]))
+        r_w = rs.random()
+        if r_w < 0.2 and base["in"] and base["out"]:
+            # ring wiring: each contract consumes an output of the other (the allowed-feedback branch of compose when no
+            # assumption mentions a loop variable)
+            o = rs.choice(base["out"])
+            i = rs.choice(base["in"])
+            if o not in c["in"] and o not in c["out"]:
+                c["in"].append(o)
+            if i not in c["out"] and i not in c["in"] and i not in base["out"]:
+                c["out"].append(i)
+        if r_w < 0.35 and base["a"]:
+            # both sides carry the same assumption on a shared top-level input
+            sup, table = rs.choice(base["a"])
+            if all(v in c["in"] or (v not in c["out"] and v not in base["out"]) for v in sup):
+                for v in sup:
+                    if v not in c["in"]:
+                        c["in"].append(v)
+                c["a"].append([list(sup), table])
+        pool.append(c)
     ifaces: List[Optional[Dict]] = [{"in": list(c["in"]), "out": list(c["out"])} for c in pool]
     ops: List[Dict] = []
     composed: List[Tuple[int, int, int]] = []  # (result index, l, r)
